@@ -10,7 +10,7 @@
 From Coq Require Import List String Bool Arith.
 From Helm Require Import Common.Assoc Engine.Types Engine.Eff Engine.Ops Engine.Cluster Engine.Seq
   Engine.SeqProofs Engine.HooksProofsGate Engine.ContainLedger Engine.ContainProofs Engine.ContainDeployed
-  Engine.Contain Engine.ContainRefuted Engine.ContainStore Engine.HooksProofsTrace Engine.ContainReported.
+  Engine.Contain Engine.ContainRefuted Engine.ContainStore Engine.HooksProofsTrace Engine.ContainReported Engine.ContainCleanup.
 Import ListNotations.
 Local Open Scope string_scope.
 
@@ -108,6 +108,23 @@ Example C03_containment_example :
 Proof. exact containment_example. Qed.
 Print Assumptions C03_containment_example.
 
+(* C03_cleanup_on_fail — non-atomic upgrade with cleanup-on-fail under the object-store
+   cluster and a one-shot fault plan that is not a DELETE fault (such a fault could only hit
+   the clean-up itself, a second failure): the run is an execution [tr] in which, if a
+   cluster-side failure occurs, every resource of Result.Created — the list the update
+   (the only KUpdate of the trace) returned — is absent from the cluster afterwards. *)
+Theorem C03_cleanup_on_fail :
+  forall rn ns fl cid vid mani hks cf w w' out t,
+    f_atomic fl = false -> f_cleanup fl = true -> f_dry_run fl = false ->
+    (forall key, cf_k cf <> Some (VDelete, key)) ->
+    run_store_op rn ns (mkOp (OpUpgrade fl cid vid mani hks) nofault cf) w = (w', out, t) ->
+    exists tr, exec (upgrade rn ns fl cid vid mani hks) tr out /\
+      (has_failure tr = true ->
+       forall cur tgt ok created, In (ER (KUpdate cur tgt) (ok, created)) tr ->
+         forall r, In r created -> amem (rkey r) (w_objs w') = false).
+Proof. exact cleanup_on_fail. Qed.
+Print Assumptions C03_cleanup_on_fail.
+
 (* Known finding K6 — why the atomic clause needs its hypothesis: install {a,b};
    upgrade --atomic to {a'} with PATCH a rejected: the automatic rollback aborts on the
    dropped resource b; history 1:deployed 2:superseded 3:failed, no new deployed revision,
@@ -137,3 +154,13 @@ Theorem C03_atomic_recovery_hook_refuted :
               statuses (w_led w) = [(1, SUninstalling)] /\ amem "ConfigMap/hx" (w_objs w) = true.
 Proof. exact atomic_recovery_hook_refuted. Qed.
 Print Assumptions C03_atomic_recovery_hook_refuted.
+
+(* the hypotheses of C03_cleanup_on_fail are met: install {a}; upgrade --cleanup-on-fail to
+   {a',c,d} with CREATE d rejected: Created = [c; d], and afterwards only a is in the cluster *)
+Example C03_cleanup_example :
+  (forall key, cf_k cu_cf <> Some (VDelete, key)) /\
+  has_failure (snd cu_run) = true /\
+  (exists cur tgt, In (ER (KUpdate cur tgt) (false, map (stamp "rel" "default") [cu_cm "c" "v2"; cu_cm "d" "v2"])) (snd cu_run)) /\
+  map fst (objs (ks (fst (fst cu_run)))) = ["ConfigMap/a"].
+Proof. exact cleanup_example. Qed.
+Print Assumptions C03_cleanup_example.
